@@ -321,6 +321,11 @@ fn collect_flow_count_flags_from_expr(expr: &Expression, targets: &mut BTreeMap<
         Expression::Variable(name) => {
             add_flow_count_flags(targets, name, COUNT_VISITS);
         }
+        // A divert target used as a value (`VAR x = -> knot`, `~ x = -> knot`):
+        // what will be asked about it is unknown, so count everything.
+        Expression::DivertTarget(target) => {
+            add_flow_count_flags(targets, target, COUNT_VISITS | COUNT_TURNS);
+        }
         Expression::Negate(inner) | Expression::Not(inner) => {
             collect_flow_count_flags_from_expr(inner, targets);
         }
@@ -346,6 +351,9 @@ impl EmitContext {
         let qualified_choice_labels = collect_story_choice_labels(story);
         let unqualified_flow_targets = collect_unqualified_flow_targets(story);
         let mut raw_flow_count_flags = BTreeMap::new();
+        for global in story.globals() {
+            collect_flow_count_flags_from_expr(&global.initial_value, &mut raw_flow_count_flags);
+        }
         collect_flow_count_flags_from_nodes(story.root(), &mut raw_flow_count_flags);
         collect_flow_count_flags_from_flows_into(story.flows(), &mut raw_flow_count_flags);
         let mut flow_count_flags = BTreeMap::new();
